@@ -150,6 +150,10 @@ func (r *ContentReader) parseComments() {
 	}
 	switch {
 	case found:
+		if excluded && !r.inBegin {
+			// The line itself was already excluded by ignore/next-line, none of its text can be kept.
+			r.emptyCurrentLine(lineComments)
+		}
 		switch skip { // nolint: exhaustive
 		case skipFile:
 			r.emptyCurrentLine(lineComments)
